@@ -121,6 +121,31 @@ def two_macro_variants(base, rnd):
                 pat[i] = "@outer"
                 out.append(("nested", [{"name": "@outer", "pattern": [body]}, {"name": "@inner", "pattern": leaf}], pat))
                 break
+    # one parameterised macro used twice with DIFFERENT arguments (uses must not influence each other)
+    dict_tops = [i for i in tops if isinstance(base[i], dict)]
+    for i, j in itertools.combinations(dict_tops, 2):
+        li = [(p, s) for p, s in _paths(base[i]) if p and isinstance(s, str)]
+        lj = [(p, s) for p, s in _paths(base[j]) if p and isinstance(s, str)]
+        done = False
+        for (pi, si) in li:
+            for (pj, sj) in lj:
+                if si != sj:
+                    bi, bj = copy.deepcopy(base[i]), copy.deepcopy(base[j])
+                    for p2, s2 in list(_paths(bi)):
+                        if p2 and s2 == si:
+                            _set(bi, p2, "p-arg1")
+                    for p2, s2 in list(_paths(bj)):
+                        if p2 and s2 == sj:
+                            _set(bj, p2, "p-arg1")
+                    if bi == bj:
+                        pat = copy.deepcopy(base)
+                        pat[i] = {"@z1": None, "p-arg1": si}
+                        pat[j] = {"@z1": None, "p-arg1": sj}
+                        out.append(("param_two_uses", [{"name": "@z1", "args": ["p-arg1"], "pattern": [bi]}], pat))
+                        done = True
+                        break
+            if done:
+                break
     # the same string macro used at every place the string occurs (several uses)
     seen = {}
     for p, s in strs:
